@@ -1,5 +1,6 @@
 import StreamzVerif.Model.MapAsyncFine
-/-! Invariant and helper lemmas for the fine-grained `map_async` model (Model/MapAsyncFine.lean), variant `.locked`. -/
+/-! Invariants and helper lemmas for the fine-grained `map_async` model (Model/MapAsyncFine.lean): insert path
+`.locked`, worker life cycle `.current`. -/
 set_option linter.unusedSimpArgs false
 set_option linter.unusedVariables false
 set_option linter.unnecessarySimpa false
@@ -8,50 +9,77 @@ namespace StreamzVerif.MapAsyncFine
 variable {α : Type}
 
 @[simp] theorem fresh_nil : fresh [] = [] := rfl
-@[simp] theorem fresh_insFirst (j : Nat) (r : List H) : fresh ((.insFirst j) :: r) = j :: fresh r := rfl
-@[simp] theorem fresh_insWake (j : Nat) (r : List H) : fresh ((.insWake j) :: r) = fresh r := rfl
-@[simp] theorem fresh_insPoll (j : Nat) (r : List H) : fresh ((.insPoll j) :: r) = fresh r := rfl
-@[simp] theorem fresh_ack (j : Nat) (r : List H) : fresh ((.ack j) :: r) = fresh r := rfl
-@[simp] theorem fresh_worker (r : List H) : fresh (.worker :: r) = fresh r := rfl
-@[simp] theorem fresh_jobFirst (j : Nat) (r : List H) : fresh ((.jobFirst j) :: r) = fresh r := rfl
-@[simp] theorem fresh_jobWake (j : Nat) (r : List H) : fresh ((.jobWake j) :: r) = fresh r := rfl
-@[simp] theorem fresh_gatherCb (r : List H) : fresh (.gatherCb :: r) = fresh r := rfl
+@[simp] theorem fresh_insFirst (j : Nat) (r : List H) : fresh (.insFirst j :: r) = j :: fresh r := rfl
+@[simp] theorem fresh_insWake (j : Nat) (r : List H) : fresh (.insWake j :: r) = fresh r := rfl
+@[simp] theorem fresh_insPoll (j : Nat) (r : List H) : fresh (.insPoll j :: r) = fresh r := rfl
+@[simp] theorem fresh_ack (j : Nat) (r : List H) : fresh (.ack j :: r) = fresh r := rfl
+@[simp] theorem fresh_worker (j : Nat) (r : List H) : fresh (.worker j :: r) = fresh r := rfl
+@[simp] theorem fresh_waitCb (j : Nat) (r : List H) : fresh (.waitCb j :: r) = fresh r := rfl
+@[simp] theorem fresh_jobFirst (j : Nat) (r : List H) : fresh (.jobFirst j :: r) = fresh r := rfl
+@[simp] theorem fresh_jobWake (j : Nat) (r : List H) : fresh (.jobWake j :: r) = fresh r := rfl
+@[simp] theorem fresh_gatherCb (j : Nat) (r : List H) : fresh (.gatherCb j :: r) = fresh r := rfl
 @[simp] theorem fresh_append (a b : List H) : fresh (a ++ b) = fresh a ++ fresh b := by
   induction a with
   | nil => rfl
   | cons h t ih => cases h <;> simp [ih]
+@[simp] theorem fresh_map_worker (l : List Nat) : fresh (l.map H.worker) = [] := by
+  induction l with
+  | nil => rfl
+  | cons h t ih => simp [ih]
 @[simp] theorem wakes_nil : wakes [] = [] := rfl
-@[simp] theorem wakes_insFirst (j : Nat) (r : List H) : wakes ((.insFirst j) :: r) = wakes r := rfl
-@[simp] theorem wakes_insWake (j : Nat) (r : List H) : wakes ((.insWake j) :: r) = j :: wakes r := rfl
-@[simp] theorem wakes_insPoll (j : Nat) (r : List H) : wakes ((.insPoll j) :: r) = wakes r := rfl
-@[simp] theorem wakes_ack (j : Nat) (r : List H) : wakes ((.ack j) :: r) = wakes r := rfl
-@[simp] theorem wakes_worker (r : List H) : wakes (.worker :: r) = wakes r := rfl
-@[simp] theorem wakes_jobFirst (j : Nat) (r : List H) : wakes ((.jobFirst j) :: r) = wakes r := rfl
-@[simp] theorem wakes_jobWake (j : Nat) (r : List H) : wakes ((.jobWake j) :: r) = wakes r := rfl
-@[simp] theorem wakes_gatherCb (r : List H) : wakes (.gatherCb :: r) = wakes r := rfl
+@[simp] theorem wakes_insFirst (j : Nat) (r : List H) : wakes (.insFirst j :: r) = wakes r := rfl
+@[simp] theorem wakes_insWake (j : Nat) (r : List H) : wakes (.insWake j :: r) = j :: wakes r := rfl
+@[simp] theorem wakes_insPoll (j : Nat) (r : List H) : wakes (.insPoll j :: r) = wakes r := rfl
+@[simp] theorem wakes_ack (j : Nat) (r : List H) : wakes (.ack j :: r) = wakes r := rfl
+@[simp] theorem wakes_worker (j : Nat) (r : List H) : wakes (.worker j :: r) = wakes r := rfl
+@[simp] theorem wakes_waitCb (j : Nat) (r : List H) : wakes (.waitCb j :: r) = wakes r := rfl
+@[simp] theorem wakes_jobFirst (j : Nat) (r : List H) : wakes (.jobFirst j :: r) = wakes r := rfl
+@[simp] theorem wakes_jobWake (j : Nat) (r : List H) : wakes (.jobWake j :: r) = wakes r := rfl
+@[simp] theorem wakes_gatherCb (j : Nat) (r : List H) : wakes (.gatherCb j :: r) = wakes r := rfl
 @[simp] theorem wakes_append (a b : List H) : wakes (a ++ b) = wakes a ++ wakes b := by
   induction a with
   | nil => rfl
   | cons h t ih => cases h <;> simp [ih]
+@[simp] theorem wakes_map_worker (l : List Nat) : wakes (l.map H.worker) = [] := by
+  induction l with
+  | nil => rfl
+  | cons h t ih => simp [ih]
 @[simp] theorem polls_nil : polls [] = [] := rfl
-@[simp] theorem polls_insFirst (j : Nat) (r : List H) : polls ((.insFirst j) :: r) = polls r := rfl
-@[simp] theorem polls_insWake (j : Nat) (r : List H) : polls ((.insWake j) :: r) = polls r := rfl
-@[simp] theorem polls_insPoll (j : Nat) (r : List H) : polls ((.insPoll j) :: r) = j :: polls r := rfl
-@[simp] theorem polls_ack (j : Nat) (r : List H) : polls ((.ack j) :: r) = polls r := rfl
-@[simp] theorem polls_worker (r : List H) : polls (.worker :: r) = polls r := rfl
-@[simp] theorem polls_jobFirst (j : Nat) (r : List H) : polls ((.jobFirst j) :: r) = polls r := rfl
-@[simp] theorem polls_jobWake (j : Nat) (r : List H) : polls ((.jobWake j) :: r) = polls r := rfl
-@[simp] theorem polls_gatherCb (r : List H) : polls (.gatherCb :: r) = polls r := rfl
+@[simp] theorem polls_insFirst (j : Nat) (r : List H) : polls (.insFirst j :: r) = polls r := rfl
+@[simp] theorem polls_insWake (j : Nat) (r : List H) : polls (.insWake j :: r) = polls r := rfl
+@[simp] theorem polls_insPoll (j : Nat) (r : List H) : polls (.insPoll j :: r) = j :: polls r := rfl
+@[simp] theorem polls_ack (j : Nat) (r : List H) : polls (.ack j :: r) = polls r := rfl
+@[simp] theorem polls_worker (j : Nat) (r : List H) : polls (.worker j :: r) = polls r := rfl
+@[simp] theorem polls_waitCb (j : Nat) (r : List H) : polls (.waitCb j :: r) = polls r := rfl
+@[simp] theorem polls_jobFirst (j : Nat) (r : List H) : polls (.jobFirst j :: r) = polls r := rfl
+@[simp] theorem polls_jobWake (j : Nat) (r : List H) : polls (.jobWake j :: r) = polls r := rfl
+@[simp] theorem polls_gatherCb (j : Nat) (r : List H) : polls (.gatherCb j :: r) = polls r := rfl
 @[simp] theorem polls_append (a b : List H) : polls (a ++ b) = polls a ++ polls b := by
   induction a with
   | nil => rfl
   | cons h t ih => cases h <;> simp [ih]
-
-@[simp] theorem pre_absent : W.absent.pre = [] := rfl
-@[simp] theorem pre_starting : W.starting.pre = [] := rfl
-@[simp] theorem pre_getting (b : Bool) : (W.getting b).pre = [] := rfl
-@[simp] theorem pre_awaiting (j : Nat) : (W.awaiting j).pre = [j] := rfl
-@[simp] theorem pre_emitting (j : Nat) (b : Bool) : (W.emitting j b).pre = [] := rfl
+@[simp] theorem polls_map_worker (l : List Nat) : polls (l.map H.worker) = [] := by
+  induction l with
+  | nil => rfl
+  | cons h t ih => simp [ih]
+@[simp] theorem waitCbs_nil : waitCbs [] = [] := rfl
+@[simp] theorem waitCbs_insFirst (j : Nat) (r : List H) : waitCbs (.insFirst j :: r) = waitCbs r := rfl
+@[simp] theorem waitCbs_insWake (j : Nat) (r : List H) : waitCbs (.insWake j :: r) = waitCbs r := rfl
+@[simp] theorem waitCbs_insPoll (j : Nat) (r : List H) : waitCbs (.insPoll j :: r) = waitCbs r := rfl
+@[simp] theorem waitCbs_ack (j : Nat) (r : List H) : waitCbs (.ack j :: r) = waitCbs r := rfl
+@[simp] theorem waitCbs_worker (j : Nat) (r : List H) : waitCbs (.worker j :: r) = waitCbs r := rfl
+@[simp] theorem waitCbs_waitCb (j : Nat) (r : List H) : waitCbs (.waitCb j :: r) = j :: waitCbs r := rfl
+@[simp] theorem waitCbs_jobFirst (j : Nat) (r : List H) : waitCbs (.jobFirst j :: r) = waitCbs r := rfl
+@[simp] theorem waitCbs_jobWake (j : Nat) (r : List H) : waitCbs (.jobWake j :: r) = waitCbs r := rfl
+@[simp] theorem waitCbs_gatherCb (j : Nat) (r : List H) : waitCbs (.gatherCb j :: r) = waitCbs r := rfl
+@[simp] theorem waitCbs_append (a b : List H) : waitCbs (a ++ b) = waitCbs a ++ waitCbs b := by
+  induction a with
+  | nil => rfl
+  | cons h t ih => cases h <;> simp [ih]
+@[simp] theorem waitCbs_map_worker (l : List Nat) : waitCbs (l.map H.worker) = [] := by
+  induction l with
+  | nil => rfl
+  | cons h t ih => simp [ih]
 
 theorem full_iff {γ : Type} (p : Nat) (q : List γ) : full p q = true ↔ p ≠ 0 ∧ p ≤ q.length := by
   simp [full]
@@ -61,38 +89,321 @@ theorem filter_unwoken (l : List (Nat × Bool)) (h : ∀ e ∈ l, e.2 = false) :
   intro e he
   simp [h e he]
 
+/-! ### the worker list -/
+
+theorem stOf_def (s : FSt α) (w : Nat) : stOf s w = stL s.workers w := rfl
+theorem stopOf_def (s : FSt α) (w : Nat) : stopOf s w = stopL s.workers w := rfl
+
+theorem stL_lt (l : List Wk) (w : Nat) (h : stL l w ≠ .finished) : w < l.length := by
+  unfold stL at h
+  cases hg : l[w]? with
+  | none => simp [hg] at h
+  | some k => exact (List.getElem?_eq_some_iff.mp hg).1
+
+@[simp] theorem stL_modify_st (l : List Wk) (w v : Nat) (x : W) :
+    stL (l.modify w (fun k => { k with st := x })) v = if v = w ∧ w < l.length then x else stL l v := by
+  unfold stL
+  rw [List.getElem?_modify]
+  by_cases hvw : v = w
+  · subst hvw
+    cases hg : l[v]? with
+    | none =>
+      have : ¬ v < l.length := by
+        intro hlt; rw [List.getElem?_eq_getElem hlt] at hg; simp at hg
+      simp [hg, this]
+    | some k =>
+      have : v < l.length := (List.getElem?_eq_some_iff.mp hg).1
+      simp [hg, this]
+  · have : ¬ w = v := fun h => hvw h.symm
+    cases hg : l[v]? <;> simp [hg, hvw, this]
+
+@[simp] theorem stL_modify_stop (l : List Wk) (w v : Nat) :
+    stL (l.modify w (fun k => { k with stop := true })) v = stL l v := by
+  unfold stL
+  rw [List.getElem?_modify]
+  cases hg : l[v]? with
+  | none => simp [hg]
+  | some k => by_cases h : w = v <;> simp [hg, h]
+
+@[simp] theorem stopL_modify_st (l : List Wk) (w v : Nat) (x : W) :
+    stopL (l.modify w (fun k => { k with st := x })) v = stopL l v := by
+  unfold stopL
+  rw [List.getElem?_modify]
+  cases hg : l[v]? with
+  | none => simp [hg]
+  | some k => by_cases h : w = v <;> simp [hg, h]
+
+theorem stL_append_lt (l : List Wk) (k : Wk) (v : Nat) (h : v < l.length) : stL (l ++ [k]) v = stL l v := by
+  unfold stL; rw [List.getElem?_append_left h]
+
+theorem stL_append_eq (l : List Wk) (k : Wk) : stL (l ++ [k]) l.length = k.st := by
+  unfold stL; simp
+
+theorem stL_ge (l : List Wk) (v : Nat) (h : l.length ≤ v) : stL l v = .finished := by
+  unfold stL
+  have : l[v]? = none := by simp [h]
+  simp [this]
+
+/-! ### `findSome?` over `range` -/
+
+theorem findSome_range_congr {γ : Type} (f g : Nat → Option γ) (n : Nat) (h : ∀ v, v < n → f v = g v) :
+    (List.range n).findSome? f = (List.range n).findSome? g := by
+  induction n with
+  | zero => rfl
+  | succ n ih =>
+    rw [List.range_succ, List.findSome?_append, List.findSome?_append, ih (fun v hv => h v (by omega))]
+    simp [h n (by omega)]
+
+theorem findSome_range_none {γ : Type} (f : Nat → Option γ) (n : Nat) (h : ∀ v, v < n → f v = none) :
+    (List.range n).findSome? f = none := by
+  rw [List.findSome?_eq_none_iff]
+  intro x hx
+  exact h x (by simpa using hx)
+
+theorem findSome_range_single {γ : Type} (f : Nat → Option γ) (n w : Nat) (hw : w < n)
+    (h : ∀ v, v < n → v ≠ w → f v = none) : (List.range n).findSome? f = f w := by
+  induction n with
+  | zero => omega
+  | succ n ih =>
+    rw [List.range_succ, List.findSome?_append]
+    by_cases hwn : w = n
+    · subst hwn
+      rw [findSome_range_none f w (fun v hv => h v (by omega) (by omega))]
+      simp
+    · rw [ih (by omega) (fun v hv hne => h v (by omega) hne)]
+      cases hf : f w with
+      | some x => simp
+      | none => simp [h n (by omega) (fun e => hwn e.symm)]
+
+def aprojL (l : List Wk) : WP := ((List.range l.length).findSome? (fun w => projA (stL l w))).getD .idle
+
+theorem aproj_def (s : FSt α) : aproj s = aprojL s.workers := rfl
+
+theorem aprojL_congr (l l' : List Wk) (hl : l'.length = l.length)
+    (h : ∀ v, v < l.length → projA (stL l' v) = projA (stL l v)) : aprojL l' = aprojL l := by
+  unfold aprojL
+  rw [hl, findSome_range_congr _ _ _ h]
+
+theorem aprojL_single (l : List Wk) (w : Nat) (hw : w < l.length)
+    (h : ∀ v, v < l.length → v ≠ w → projA (stL l v) = none) : aprojL l = (projA (stL l w)).getD .idle := by
+  unfold aprojL
+  rw [findSome_range_single _ _ w hw h]
+
+theorem aprojL_modify (l : List Wk) (w : Nat) (x : W) (hw : w < l.length)
+    (h : ∀ v, v < l.length → v ≠ w → projA (stL l v) = none) :
+    aprojL (l.modify w (fun k => { k with st := x })) = (projA x).getD .idle := by
+  rw [aprojL_single _ w (by simpa using hw)]
+  · simp [hw]
+  · intro v hv hne
+    simp at hv
+    simp [hne, h v hv hne]
+
+theorem aprojL_append (l : List Wk) (k : Wk) (hk : projA k.st = none) : aprojL (l ++ [k]) = aprojL l := by
+  unfold aprojL
+  simp only [List.length_append, List.length_singleton]
+  rw [List.range_succ, List.findSome?_append]
+  rw [findSome_range_congr _ (fun w => projA (stL l w)) _ (fun v hv => by rw [stL_append_lt l k v hv])]
+  simp [stL_append_eq, hk]
+
+/-! ### the worker invariant: a chain of finished workers, at most one past its predecessor wait, the rest waiting -/
+
+structure WInv (s : FSt α) : Prop where
+  /-- a worker that is past its predecessor wait (active or finished) has only finished workers before it -/
+  chain : ∀ w, w < s.workers.length → (stL s.workers w).isPre = false → ∀ v, v < w → stL s.workers v = .finished
+  /-- `asyncio.wait([previous])` returns only after `previous` has finished -/
+  woken : ∀ w, stL s.workers w = .waitPrev true → 1 ≤ w ∧ stL s.workers (w - 1) = .finished
+  /-- ... its `_on_completion` callback is queued only by the predecessor's completion -/
+  cbs : ∀ w, w ∈ waitCbs s.ready → 1 ≤ w ∧ w < s.workers.length ∧ stL s.workers (w - 1) = .finished
+
+theorem winv_init : WInv (init α) := by
+  constructor <;> simp [init, stL]
+
+/-- workers untouched, no new `_on_completion` handle -/
+theorem winv_frame (s s' : FSt α) (h : WInv s) (hw : s'.workers = s.workers)
+    (hc : ∀ u, u ∈ waitCbs s'.ready → u ∈ waitCbs s.ready) : WInv s' := by
+  constructor
+  · rw [hw]; exact h.chain
+  · rw [hw]; exact h.woken
+  · rw [hw]; intro u hu; exact h.cbs u (hc u hu)
+
+/-- worker `w` (not finished) moves to state `x` -/
+theorem winv_setSt (s s' : FSt α) (w : Nat) (x : W) (h : WInv s) (hlt : w < s.workers.length)
+    (hnf : stL s.workers w ≠ .finished)
+    (hpre : x.isPre = false → ∀ v, v < w → stL s.workers v = .finished)
+    (hwk : x = .waitPrev true → 1 ≤ w ∧ stL s.workers (w - 1) = .finished)
+    (hw : s'.workers = s.workers.modify w (fun k => { k with st := x }))
+    (hc : ∀ u, u ∈ waitCbs s'.ready → u ∈ waitCbs s.ready ∨ (x = .finished ∧ u = w + 1 ∧ w + 1 < s.workers.length)) :
+    WInv s' := by
+  constructor
+  · intro w' hw' hp v hv
+    rw [hw] at hw' hp ⊢
+    simp at hw'
+    simp only [stL_modify_st, hlt, and_true] at hp ⊢
+    by_cases e : w' = w
+    · subst e
+      simp at hp
+      have hvw : v ≠ w' := by omega
+      simp [hvw]
+      exact hpre hp v hv
+    · simp [e] at hp
+      have hall := h.chain w' hw' hp
+      by_cases e2 : v = w
+      · subst e2
+        exact absurd (hall v hv) hnf
+      · simp [e2]; exact hall v hv
+  · intro w' hw'
+    rw [hw] at hw' ⊢
+    simp only [stL_modify_st, hlt, and_true] at hw' ⊢
+    by_cases e : w' = w
+    · subst e
+      simp at hw'
+      obtain ⟨h1, h2⟩ := hwk hw'
+      have : w' - 1 ≠ w' := by omega
+      simp [this]
+      exact ⟨h1, h2⟩
+    · simp [e] at hw'
+      obtain ⟨h1, h2⟩ := h.woken w' hw'
+      by_cases e2 : w' - 1 = w
+      · rw [e2] at h2; exact absurd h2 hnf
+      · simp [e2]; exact ⟨h1, h2⟩
+  · intro u hu
+    rw [hw]
+    simp only [stL_modify_st, hlt, and_true]
+    rcases hc u hu with hu' | ⟨hx, hu', hlt'⟩
+    · obtain ⟨h1, h3, h2⟩ := h.cbs u hu'
+      by_cases e2 : u - 1 = w
+      · rw [e2] at h2; exact absurd h2 hnf
+      · simp [e2]; exact ⟨h1, h3, h2⟩
+    · subst hu'
+      simp [hx, hlt']
+
+theorem winv_setStop (s s' : FSt α) (w : Nat) (h : WInv s)
+    (hw : s'.workers = s.workers.modify w (fun k => { k with stop := true }))
+    (hc : ∀ u, u ∈ waitCbs s'.ready → u ∈ waitCbs s.ready) : WInv s' := by
+  constructor
+  · intro w' hw'
+    rw [hw] at hw' ⊢
+    simp at hw'
+    simpa using h.chain w' hw'
+  · rw [hw]; simpa using h.woken
+  · rw [hw]; intro u hu; simpa using h.cbs u (hc u hu)
+
+/-- a new worker (first step queued) is appended -/
+theorem winv_append (s s' : FSt α) (h : WInv s) (hw : s'.workers = s.workers ++ [({} : Wk)])
+    (hc : ∀ u, u ∈ waitCbs s'.ready → u ∈ waitCbs s.ready) : WInv s' := by
+  constructor
+  · intro w' hw' hp v hv
+    rw [hw] at hw' hp ⊢
+    simp at hw'
+    by_cases e : w' = s.workers.length
+    · subst e
+      rw [stL_append_eq] at hp
+      simp [W.isPre] at hp
+    · have hlt : w' < s.workers.length := by omega
+      rw [stL_append_lt _ _ _ hlt] at hp
+      rw [stL_append_lt _ _ _ (by omega)]
+      exact h.chain w' hlt hp v hv
+  · intro w' hw'
+    rw [hw] at hw' ⊢
+    by_cases hlt : w' < s.workers.length
+    · rw [stL_append_lt _ _ _ hlt] at hw'
+      obtain ⟨h1, h2⟩ := h.woken w' hw'
+      exact ⟨h1, by rw [stL_append_lt _ _ _ (by omega)]; exact h2⟩
+    · by_cases e : w' = s.workers.length
+      · subst e; rw [stL_append_eq] at hw'; cases hw'
+      · rw [stL_ge _ _ (by simp; omega)] at hw'; cases hw'
+  · intro u hu
+    rw [hw]
+    obtain ⟨h1, h3, h2⟩ := h.cbs u (hc u hu)
+    exact ⟨h1, by simp; omega, by rw [stL_append_lt _ _ _ (by omega)]; exact h2⟩
+
+/-! ### consequences of the chain -/
+
+theorem projA_pre (x : W) (h : x.isPre = true) : projA x = none := by
+  cases x <;> simp [W.isPre, projA] at h ⊢
+
+/-- all predecessors finished as soon as the immediate one is -/
+theorem preds_of_prev (s : FSt α) (h : WInv s) (w : Nat) (hw : 1 ≤ w) (hlt : w - 1 < s.workers.length)
+    (hp : stL s.workers (w - 1) = .finished) : ∀ v, v < w → stL s.workers v = .finished := by
+  intro v hv
+  by_cases e : v = w - 1
+  · rw [e]; exact hp
+  · exact h.chain (w - 1) hlt (by rw [hp]; rfl) v (by omega)
+
+/-- while worker `w` is not finished and everything before it is, nobody else holds a task -/
+theorem others_none (s : FSt α) (h : WInv s) (w : Nat) (hnf : stL s.workers w ≠ .finished)
+    (hp : ∀ v, v < w → stL s.workers v = .finished) :
+    ∀ v, v < s.workers.length → v ≠ w → projA (stL s.workers v) = none := by
+  intro v hv hne
+  by_cases hvw : v < w
+  · rw [hp v hvw]; rfl
+  · by_cases hpre : (stL s.workers v).isPre = true
+    · exact projA_pre _ hpre
+    · have := h.chain v hv (by simpa using hpre) w (by omega)
+      exact absurd this hnf
+
 /-! ### field lemmas of the building blocks -/
 
-@[simp] theorem insertNow_started (s : FSt α) (j : Nat) : (insertNow s j).started = s.started ++ [j] := by
-  unfold insertNow; split <;> rfl
-@[simp] theorem insertNow_queue (s : FSt α) (j : Nat) : (insertNow s j).queue = s.queue ++ [j] := by
-  unfold insertNow; split <;> rfl
-@[simp] theorem insertNow_ins (s : FSt α) (j : Nat) : (insertNow s j).ins = s.ins := by
-  unfold insertNow; split <;> rfl
-@[simp] theorem insertNow_holder (s : FSt α) (j : Nat) : (insertNow s j).holder = s.holder := by
-  unfold insertNow; split <;> rfl
-@[simp] theorem insertNow_lockq (s : FSt α) (j : Nat) : (insertNow s j).lockq = s.lockq := by
-  unfold insertNow; split <;> rfl
-@[simp] theorem insertNow_outs (s : FSt α) (j : Nat) : (insertNow s j).outs = s.outs := by
-  unfold insertNow; split <;> rfl
-@[simp] theorem insertNow_fin (s : FSt α) (j : Nat) : (insertNow s j).fin = s.fin := by
-  unfold insertNow; split <;> rfl
-@[simp] theorem insertNow_acked (s : FSt α) (j : Nat) : (insertNow s j).acked = s.acked := by
-  unfold insertNow; split <;> rfl
-@[simp] theorem insertNow_jobs (s : FSt α) (j : Nat) : (insertNow s j).jobs = s.jobs ++ [(j, .created)] := by
-  unfold insertNow; split <;> rfl
-@[simp] theorem insertNow_pre (s : FSt α) (j : Nat) : (insertNow s j).worker.pre = s.worker.pre := by
-  unfold insertNow; split <;> simp_all
-@[simp] theorem insertNow_fresh (s : FSt α) (j : Nat) : fresh (insertNow s j).ready = fresh s.ready := by
-  unfold insertNow; split <;> simp
-@[simp] theorem insertNow_wakes (s : FSt α) (j : Nat) : wakes (insertNow s j).ready = wakes s.ready := by
-  unfold insertNow; split <;> simp
-@[simp] theorem insertNow_polls (s : FSt α) (j : Nat) : polls (insertNow s j).ready = polls s.ready := by
-  unfold insertNow; split <;> simp
-theorem insertNow_not_getting (s : FSt α) (j : Nat) : (insertNow s j).worker ≠ .getting true := by
-  unfold insertNow; split
-  · simp
-  · rename_i h; simpa using h
+theorem wakeGetter_facts (s : FSt α) (l : List Nat) :
+    (wakeGetter s l).started = s.started ∧ (wakeGetter s l).ins = s.ins ∧ (wakeGetter s l).holder = s.holder ∧
+    (wakeGetter s l).lockq = s.lockq ∧ (wakeGetter s l).queue = s.queue ∧ (wakeGetter s l).outs = s.outs ∧
+    (wakeGetter s l).jobs = s.jobs ∧ (wakeGetter s l).workTask = s.workTask ∧
+    fresh (wakeGetter s l).ready = fresh s.ready ∧ wakes (wakeGetter s l).ready = wakes s.ready ∧
+    polls (wakeGetter s l).ready = polls s.ready ∧ waitCbs (wakeGetter s l).ready = waitCbs s.ready ∧
+    (wakeGetter s l).workers.length = s.workers.length ∧
+    (∀ v, projA (stL (wakeGetter s l).workers v) = projA (stL s.workers v)) ∧
+    (WInv s → WInv (wakeGetter s l)) := by
+  induction l with
+  | nil => simp [wakeGetter]; intro h; exact winv_frame s _ h rfl (fun u hu => hu)
+  | cons g rest ih =>
+    unfold wakeGetter
+    by_cases hg : stOf s g = .getting true
+    · simp only [hg, if_true]
+      rw [stOf_def] at hg
+      have hlt : g < s.workers.length := stL_lt _ _ (by rw [hg]; intro h; cases h)
+      refine ⟨rfl, rfl, rfl, rfl, rfl, rfl, rfl, rfl, by simp [setSt], by simp [setSt], by simp [setSt], by simp [setSt],
+        by simp [setSt], ?_, ?_⟩
+      · intro v
+        simp only [setSt, stL_modify_st, hlt, and_true]
+        by_cases e : v = g
+        · subst e; simp [hg, projA]
+        · simp [e]
+      · intro h
+        apply winv_setSt s _ g (.getting false) h hlt (by rw [hg]; intro h; cases h)
+        · intro _; exact h.chain g hlt (by rw [hg]; rfl)
+        · intro hx; cases hx
+        · rfl
+        · intro u hu; left; simpa [setSt] using hu
+    · simp only [hg, if_false]; exact ih
+
+theorem insertNow_facts (s : FSt α) (j : Nat) :
+    (insertNow s j).started = s.started ++ [j] ∧ (insertNow s j).ins = s.ins ∧ (insertNow s j).holder = s.holder ∧
+    (insertNow s j).lockq = s.lockq ∧ (insertNow s j).queue = s.queue ++ [j] ∧ (insertNow s j).outs = s.outs ∧
+    fresh (insertNow s j).ready = fresh s.ready ∧ wakes (insertNow s j).ready = wakes s.ready ∧
+    polls (insertNow s j).ready = polls s.ready ∧ waitCbs (insertNow s j).ready = waitCbs s.ready ∧
+    aproj (insertNow s j) = aproj s ∧ (WInv s → WInv (insertNow s j)) := by
+  unfold insertNow
+  obtain ⟨h1, h2, h3, h4, h5, h6, _, _, h9, h10, h11, h12, h13, h14, h15⟩ :=
+    wakeGetter_facts { s with started := s.started ++ [j], jobs := s.jobs ++ [(j, JSt.created)], queue := s.queue ++ [j],
+                              ready := s.ready ++ [H.jobFirst j] } s.getters
+  refine ⟨h1, h2, h3, h4, h5, h6, by simpa using h9, by simpa using h10, by simpa using h11, by simpa using h12, ?_, ?_⟩
+  · rw [aproj_def, aproj_def]
+    exact aprojL_congr _ _ h13 (fun v _ => h14 v)
+  · intro h
+    exact h15 (winv_frame s _ h rfl (fun u hu => by simpa using hu))
+
+@[simp] theorem insertNow_started (s : FSt α) (j : Nat) : (insertNow s j).started = s.started ++ [j] := (insertNow_facts s j).1
+@[simp] theorem insertNow_ins (s : FSt α) (j : Nat) : (insertNow s j).ins = s.ins := (insertNow_facts s j).2.1
+@[simp] theorem insertNow_holder (s : FSt α) (j : Nat) : (insertNow s j).holder = s.holder := (insertNow_facts s j).2.2.1
+@[simp] theorem insertNow_lockq (s : FSt α) (j : Nat) : (insertNow s j).lockq = s.lockq := (insertNow_facts s j).2.2.2.1
+@[simp] theorem insertNow_queue (s : FSt α) (j : Nat) : (insertNow s j).queue = s.queue ++ [j] := (insertNow_facts s j).2.2.2.2.1
+@[simp] theorem insertNow_outs (s : FSt α) (j : Nat) : (insertNow s j).outs = s.outs := (insertNow_facts s j).2.2.2.2.2.1
+@[simp] theorem insertNow_fresh (s : FSt α) (j : Nat) : fresh (insertNow s j).ready = fresh s.ready := (insertNow_facts s j).2.2.2.2.2.2.1
+@[simp] theorem insertNow_wakes (s : FSt α) (j : Nat) : wakes (insertNow s j).ready = wakes s.ready := (insertNow_facts s j).2.2.2.2.2.2.2.1
+@[simp] theorem insertNow_polls (s : FSt α) (j : Nat) : polls (insertNow s j).ready = polls s.ready := (insertNow_facts s j).2.2.2.2.2.2.2.2.1
+@[simp] theorem insertNow_waitCbs (s : FSt α) (j : Nat) : waitCbs (insertNow s j).ready = waitCbs s.ready := (insertNow_facts s j).2.2.2.2.2.2.2.2.2.1
+@[simp] theorem insertNow_aproj (s : FSt α) (j : Nat) : aproj (insertNow s j) = aproj s := (insertNow_facts s j).2.2.2.2.2.2.2.2.2.2.1
+theorem insertNow_winv (s : FSt α) (j : Nat) (h : WInv s) : WInv (insertNow s j) := (insertNow_facts s j).2.2.2.2.2.2.2.2.2.2.2 h
 
 theorem releaseLock_cases (s : FSt α) (h : ∀ e ∈ s.lockq, e.2 = false) :
     (s.lockq = [] ∧ releaseLock s = { s with holder := none }) ∨
@@ -107,14 +418,17 @@ theorem releaseLock_cases (s : FSt α) (h : ∀ e ∈ s.lockq, e.2 = false) :
     subst hb
     right; exact ⟨k, rest, rfl, by simp⟩
 
-/-! ### the invariant -/
+theorem releaseLock_view (t : FSt α) : (releaseLock t).started = t.started ∧ (releaseLock t).ins = t.ins ∧
+    (releaseLock t).queue = t.queue ∧ (releaseLock t).workers = t.workers ∧ (releaseLock t).outs = t.outs ∧
+    waitCbs (releaseLock t).ready = waitCbs t.ready := by
+  unfold releaseLock; split <;> simp
 
-structure Inv (c : Cfg) (s : FSt α) : Prop where
+/-! ### the lock invariant (insert path) -/
+
+structure LInv (c : Cfg) (s : FSt α) : Prop where
   /-- started jobs, then the lock holder, the lock's waiters, the insert jobs that have not run yet: arrival order -/
   order : s.started ++ s.holder.toList ++ s.lockq.map Prod.fst ++ fresh s.ready = List.range s.ins.length
   idx : s.ins.map Prod.fst = List.range s.ins.length
-  /-- started = emitted ++ taken by the worker ++ work queue -/
-  fifo : s.started = s.outs ++ s.worker.pre ++ s.queue
   bound : c.p ≠ 0 → s.queue.length ≤ c.p
   /-- queued `insWake` handles = resolved futures in `_waiters` -/
   wk : wakes s.ready = (s.lockq.filter (fun e => e.2)).map Prod.fst
@@ -126,35 +440,66 @@ structure Inv (c : Cfg) (s : FSt α) : Prop where
   pl : polls s.ready = s.holder.toList
   /-- no lost wake-up on the lock: a free lock with waiters has woken the first of them -/
   freeWoken : s.holder = none → s.lockq ≠ [] → ∃ k rest, s.lockq = (k, true) :: rest
-  /-- no lost wake-up on the queue: the worker's getter is registered only while the queue is empty -/
-  getter : s.worker = .getting true → s.queue = []
 
-theorem inv_init (c : Cfg) : Inv c (init α) := by
+theorem linv_init (c : Cfg) : LInv c (init α) := by
   constructor <;> simp [init]
 
-theorem inv_slotWait (c : Cfg) (hv : c.variant = .locked) (s : FSt α) (j : Nat)
+/-- what a transition that is not an insert step may do as far as the insert path is concerned -/
+structure LFrame (s s' : FSt α) : Prop where
+  started : s'.started = s.started
+  holder : s'.holder = s.holder
+  lockq : s'.lockq = s.lockq
+  ins : s'.ins = s.ins
+  fresh : fresh s'.ready = fresh s.ready
+  wakes : wakes s'.ready = wakes s.ready
+  polls : polls s'.ready = polls s.ready
+  queue : s'.queue = s.queue ∨ ∃ j, s.queue = j :: s'.queue
+
+theorem linv_frame (c : Cfg) (s s' : FSt α) (h : LInv c s) (f : LFrame s s') : LInv c s' := by
+  constructor
+  · rw [f.started, f.holder, f.lockq, f.ins, f.fresh]; exact h.order
+  · rw [f.ins]; exact h.idx
+  · intro hp
+    have := h.bound hp
+    rcases f.queue with hq | ⟨j, hq⟩
+    · rw [hq]; exact this
+    · rw [hq] at this; simp at this; omega
+  · rw [f.wakes, f.lockq]; exact h.wk
+  · rw [f.lockq]; exact h.tailUnwoken
+  · rw [f.holder, f.lockq]; exact h.heldUnwoken
+  · rw [f.polls, f.holder]; exact h.pl
+  · rw [f.holder, f.lockq]; exact h.freeWoken
+
+theorem lframe_trans (s s' s'' : FSt α) (f : LFrame s s') (g : LFrame s' s'') (hq : s'.queue = s.queue) : LFrame s s'' := by
+  constructor
+  · rw [g.started, f.started]
+  · rw [g.holder, f.holder]
+  · rw [g.lockq, f.lockq]
+  · rw [g.ins, f.ins]
+  · rw [g.fresh, f.fresh]
+  · rw [g.wakes, f.wakes]
+  · rw [g.polls, f.polls]
+  · rw [← hq]; exact g.queue
+
+theorem linv_slotWait (c : Cfg) (hv : c.variant = .locked) (s : FSt α) (j : Nat)
     (order : s.started ++ [j] ++ s.lockq.map Prod.fst ++ fresh s.ready = List.range s.ins.length)
     (idx : s.ins.map Prod.fst = List.range s.ins.length)
-    (fifo : s.started = s.outs ++ s.worker.pre ++ s.queue)
     (bound : c.p ≠ 0 → s.queue.length ≤ c.p)
     (nowake : wakes s.ready = [])
     (unwoken : ∀ e ∈ s.lockq, e.2 = false)
-    (nopoll : polls s.ready = [])
-    (getter : s.worker = .getting true → s.queue = []) : Inv c (slotWait c s j) := by
+    (nopoll : polls s.ready = []) : LInv c (slotWait c s j) := by
   unfold slotWait
   by_cases hf : full c.p s.queue = true
   · simp only [hf, if_true, hv]
     constructor
     · simpa using order
     · simpa using idx
-    · simpa using fifo
     · simpa using bound
     · simp [nowake, filter_unwoken _ unwoken]
     · intro e he; exact unwoken e (List.mem_of_mem_tail he)
     · intro _; simpa using unwoken
     · simp [nopoll]
     · simp
-    · simpa using getter
   · simp only [hf, hv]
     have hnf : c.p = 0 ∨ s.queue.length < c.p := by
       rw [full_iff] at hf; omega
@@ -165,326 +510,593 @@ theorem inv_slotWait (c : Cfg) (hv : c.variant = .locked) (s : FSt α) (j : Nat)
       constructor
       · simpa [hq] using order
       · simpa using idx
-      · simp [fifo]
       · intro hp; have := bound hp; simp; omega
       · simp [nowake, hq]
       · simp [hq]
       · simp
       · simp [nopoll]
       · simp [hq]
-      · intro h; exact absurd h (insertNow_not_getting s j)
     · simp only [Bool.false_eq_true, if_false, hr, finishInsert]
       simp at hq
       have hrest : ∀ e ∈ rest, e.2 = false := fun e he => unwoken e (by simp [hq, he])
       constructor
       · simpa [hq] using order
       · simpa using idx
-      · simp [fifo]
       · intro hp; have := bound hp; simp; omega
       · simp [nowake, filter_unwoken _ hrest]
       · simpa using hrest
       · simp
       · simp [nopoll]
       · intro _ _; exact ⟨k, rest, rfl⟩
-      · intro h; exact absurd h (insertNow_not_getting s j)
 
-/-- a change of the job table, of `fin`/`acked`, and handles appended to the ready queue that are neither insert
-steps nor wake-ups nor polls do not touch the invariant -/
-theorem inv_frame (c : Cfg) (s s' : FSt α) (h : Inv c s)
-    (h1 : s'.started = s.started) (h2 : s'.holder = s.holder) (h3 : s'.lockq = s.lockq) (h4 : s'.ins = s.ins)
-    (h5 : s'.outs = s.outs) (h6 : s'.worker = s.worker) (h7 : s'.queue = s.queue)
-    (h8 : fresh s'.ready = fresh s.ready) (h9 : wakes s'.ready = wakes s.ready) (h10 : polls s'.ready = polls s.ready) :
-    Inv c s' := by
-  constructor
-  · rw [h1, h2, h3, h4, h8]; exact h.order
-  · rw [h4]; exact h.idx
-  · rw [h1, h5, h6, h7]; exact h.fifo
-  · rw [h7]; exact h.bound
-  · rw [h9, h3]; exact h.wk
-  · rw [h3]; exact h.tailUnwoken
-  · rw [h2, h3]; exact h.heldUnwoken
-  · rw [h10, h2]; exact h.pl
-  · rw [h2, h3]; exact h.freeWoken
-  · rw [h6, h7]; exact h.getter
+/-! ### the effect of a step on the abstract view (arrivals, work queue, what the consumer side is doing, emissions,
+started jobs) -/
 
-theorem inv_emitNow (c : Cfg) (s : FSt α) (j : Nat) (h : Inv c s) (hw : s.worker = .awaiting j) : Inv c (emitNow s j) := by
-  have hf := h.fifo
-  rw [hw] at hf
-  constructor
-  · simpa [emitNow] using h.order
-  · simpa [emitNow] using h.idx
-  · simp [emitNow, hf]
-  · simpa [emitNow] using h.bound
-  · simpa [emitNow] using h.wk
-  · simpa [emitNow] using h.tailUnwoken
-  · simpa [emitNow] using h.heldUnwoken
-  · simpa [emitNow] using h.pl
-  · simpa [emitNow] using h.freeWoken
-  · simp [emitNow]
+/-- effect of `loopTop` / `getNext` (on queue `q`, emissions `o`) -/
+def GN (q o : List Nat) (s' : FSt α) : Prop :=
+  (s'.queue = q ∧ aproj s' = .idle ∧ s'.outs = o) ∨
+  (∃ j rest, q = j :: rest ∧ s'.queue = rest ∧
+    ((aproj s' = .awaiting j ∧ s'.outs = o) ∨ (aproj s' = .emitting j ∧ s'.outs = o ++ [j])))
 
-theorem inv_getNext (c : Cfg) (s : FSt α) (h : Inv c s) (hpre : s.worker.pre = []) : Inv c (getNext s) := by
-  have hf := h.fifo
-  rw [hpre] at hf
+inductive Eff (p : Nat) (s s' : FSt α) : Prop where
+  | arrive (x : α) : s'.ins = s.ins ++ [(s.ins.length, x)] → s'.queue = s.queue → aproj s' = aproj s →
+      s'.outs = s.outs → s'.started = s.started → Eff p s s'
+  | silent : s'.ins = s.ins → s'.queue = s.queue → aproj s' = aproj s →
+      s'.outs = s.outs → s'.started = s.started → Eff p s s'
+  | admission (j : Nat) : s'.ins = s.ins → s'.queue = s.queue ++ [j] → aproj s' = aproj s →
+      s'.outs = s.outs → s'.started = s.started ++ [j] → full p s.queue = false → Eff p s s'
+  | get : s'.ins = s.ins → s'.started = s.started → aproj s = .idle → GN s.queue s.outs s' → Eff p s s'
+  | emit (j : Nat) : s'.ins = s.ins → s'.started = s.started → aproj s = .awaiting j → s'.queue = s.queue →
+      aproj s' = .emitting j → s'.outs = s.outs ++ [j] → Eff p s s'
+  | release (j : Nat) : s'.ins = s.ins → s'.started = s.started → aproj s = .emitting j →
+      GN s.queue s.outs s' → Eff p s s'
+
+/-- a step that touches neither the workers nor the data -/
+theorem eff_silent_of_workers (p : Nat) (s s' : FSt α) (h1 : s'.ins = s.ins) (h2 : s'.queue = s.queue)
+    (hw : s'.workers = s.workers) (h4 : s'.outs = s.outs) (h5 : s'.started = s.started) : Eff p s s' :=
+  Eff.silent h1 h2 (by rw [aproj_def, aproj_def, hw]) h4 h5
+
+/-! ### one step of a worker -/
+
+theorem lframe_setSt (s : FSt α) (w : Nat) (x : W) : LFrame s (setSt s w x) := by
+  constructor <;> simp [setSt]
+
+theorem getNext_facts (p : Nat) (s : FSt α) (w : Nat) (hW : WInv s) (hlt : w < s.workers.length)
+    (hnf : stL s.workers w ≠ .finished) (hp : ∀ v, v < w → stL s.workers v = .finished) :
+    LFrame s (getNext s w) ∧ WInv (getNext s w) ∧ GN s.queue s.outs (getNext s w) := by
+  have hoth := others_none s hW w hnf hp
   unfold getNext
   cases hq : s.queue with
   | nil =>
     simp only
-    constructor
-    · simpa using h.order
-    · simpa using h.idx
-    · simp [hf, hq]
-    · simp
-    · simpa using h.wk
-    · simpa using h.tailUnwoken
-    · simpa using h.heldUnwoken
-    · simpa using h.pl
-    · simpa using h.freeWoken
-    · simp
+    refine ⟨by constructor <;> simp [setSt], ?_, ?_⟩
+    · exact winv_setSt s _ w (.getting true) hW hlt hnf (fun _ => hp) (by intro h; cases h) rfl
+        (fun u hu => Or.inl (by simpa [setSt] using hu))
+    · left
+      refine ⟨by simp [setSt, hq], ?_, by simp [setSt]⟩
+      rw [aproj_def]; simp only [setSt]
+      rw [aprojL_modify _ w _ hlt hoth]; rfl
   | cons j rest =>
     simp only
-    have hb : c.p ≠ 0 → rest.length ≤ c.p := by
-      intro hp; have := h.bound hp; rw [hq] at this; simp at this; omega
     split
-    · constructor
-      · simpa [emitNow] using h.order
-      · simpa [emitNow] using h.idx
-      · simp [emitNow, hf, hq]
-      · simpa [emitNow] using hb
-      · simpa [emitNow] using h.wk
-      · simpa [emitNow] using h.tailUnwoken
-      · simpa [emitNow] using h.heldUnwoken
-      · simpa [emitNow] using h.pl
-      · simpa [emitNow] using h.freeWoken
-      · simp [emitNow]
-    · constructor
-      · simpa using h.order
-      · simpa using h.idx
-      · simp [hf, hq]
-      · simpa using hb
-      · simpa using h.wk
-      · simpa using h.tailUnwoken
-      · simpa using h.heldUnwoken
-      · simpa using h.pl
-      · simpa using h.freeWoken
-      · simp
+    · refine ⟨by constructor <;> simp [emitNow, setSt, hq], ?_, ?_⟩
+      · exact winv_setSt s _ w (.emitting j true) hW hlt hnf (fun _ => hp) (by intro h; cases h) rfl
+          (fun u hu => Or.inl (by simpa [emitNow, setSt] using hu))
+      · right
+        refine ⟨j, rest, rfl, by simp [emitNow, setSt], Or.inr ⟨?_, by simp [emitNow, setSt]⟩⟩
+        rw [aproj_def]; simp only [emitNow, setSt]
+        rw [aprojL_modify _ w _ hlt hoth]; rfl
+    · refine ⟨by constructor <;> simp [setSt, hq], ?_, ?_⟩
+      · exact winv_setSt s _ w (.awaiting j) hW hlt hnf (fun _ => hp) (by intro h; cases h) rfl
+          (fun u hu => Or.inl (by simpa [setSt] using hu))
+      · right
+        refine ⟨j, rest, rfl, by simp [setSt], Or.inl ⟨?_, by simp [setSt]⟩⟩
+        rw [aproj_def]; simp only [setSt]
+        rw [aprojL_modify _ w _ hlt hoth]; rfl
 
-theorem inv_finishJob (c : Cfg) (s : FSt α) (j : Nat) (h : Inv c s) : Inv c (finishJob s j) := by
-  unfold finishJob
-  split <;> exact inv_frame c s _ h rfl rfl rfl rfl rfl rfl rfl (by simp) (by simp) (by simp)
+theorem finishWorker_facts (s : FSt α) (w : Nat) (hW : WInv s) (hlt : w < s.workers.length)
+    (hnf : stL s.workers w ≠ .finished) (hp : ∀ v, v < w → stL s.workers v = .finished) :
+    LFrame s (finishWorker s w) ∧ WInv (finishWorker s w) ∧ GN s.queue s.outs (finishWorker s w) := by
+  have hoth := others_none s hW w hnf hp
+  have hap : aprojL (s.workers.modify w (fun k => { k with st := W.finished })) = .idle := by
+    rw [aprojL_modify _ w _ hlt hoth]; rfl
+  unfold finishWorker
+  simp only
+  split
+  · rename_i hsucc
+    rw [stOf_def] at hsucc
+    have hlt' : w + 1 < s.workers.length := stL_lt _ _ (by rw [hsucc]; intro h; cases h)
+    refine ⟨by constructor <;> simp [setSt], ?_, ?_⟩
+    · apply winv_setSt s _ w .finished hW hlt hnf (fun _ => hp) (by intro h; cases h) rfl
+      intro u hu
+      simp [setSt] at hu
+      rcases hu with hu | hu
+      · exact Or.inl hu
+      · exact Or.inr ⟨rfl, hu, hlt'⟩
+    · left; exact ⟨by simp [setSt], by rw [aproj_def]; simpa [setSt] using hap, by simp [setSt]⟩
+  · refine ⟨lframe_setSt s w _, ?_, ?_⟩
+    · exact winv_setSt s _ w .finished hW hlt hnf (fun _ => hp) (by intro h; cases h) rfl
+        (fun u hu => Or.inl (by simpa [setSt] using hu))
+    · left; exact ⟨by simp [setSt], by rw [aproj_def]; simpa [setSt] using hap, by simp [setSt]⟩
 
-theorem inv_runH (c : Cfg) (hv : c.variant = .locked) (s : FSt α) (hd : H) (rest : List H) (s' : FSt α)
-    (h : Inv c s) (hr : s.ready = hd :: rest) (hs : runH c { s with ready := rest } hd = some s') : Inv c s' := by
-  have horder := h.order
-  have hwk := h.wk
-  have hpl := h.pl
-  rw [hr] at horder hwk hpl
-  cases hd with
-  | insFirst j =>
-    simp only [runH, hv, Option.some.injEq] at hs
-    subst hs
-    simp at horder hwk hpl
-    unfold tryLock
-    by_cases hfree : s.holder = none ∧ s.lockq = []
-    · simp only [hfree, and_self, if_true]
-      apply inv_slotWait c hv
-      · simpa [hfree.1, hfree.2] using horder
-      · simpa using h.idx
-      · simpa using h.fifo
-      · simpa using h.bound
-      · simpa [hfree.2] using hwk
-      · simp [hfree.2]
-      · simpa [hfree.1] using hpl
-      · simpa using h.getter
-    · have hfree' : ¬(s.holder = none ∧ s.lockq = []) := hfree
-      simp only [hfree', if_false]
-      constructor
-      · simpa using horder
-      · simpa using h.idx
-      · simpa using h.fifo
-      · simpa using h.bound
-      · simpa [List.filter_append] using hwk
-      · intro e he
-        cases hq : s.lockq with
-        | nil => simp [hq] at he
-        | cons a t =>
-          simp [hq] at he
-          rcases he with he | he
-          · exact h.tailUnwoken e (by simp [hq, he])
-          · simp [he]
-      · intro hh e he
-        simp at he
-        rcases he with he | he
-        · exact h.heldUnwoken hh e he
-        · simp [he]
-      · simpa using hpl
-      · intro hh _
-        have hne : s.lockq ≠ [] := fun hq => hfree ⟨hh, hq⟩
-        obtain ⟨k, r, hq⟩ := h.freeWoken hh hne
-        exact ⟨k, r ++ [(j, false)], by simp [hq]⟩
-      · simpa using h.getter
-  | insWake j =>
-    simp only [runH, Option.some.injEq] at hs
-    subst hs
-    simp at horder hwk hpl
-    -- the lock is free and `j` is the woken first waiter
-    have hh : s.holder = none := by
-      cases hho : s.holder with
-      | none => rfl
-      | some x =>
-        have := filter_unwoken _ (h.heldUnwoken (by simp [hho]))
-        rw [this] at hwk; simp at hwk
-    have hne : s.lockq ≠ [] := by
-      intro hq; rw [hq] at hwk; simp at hwk
-    obtain ⟨k, r, hq⟩ := h.freeWoken hh hne
-    have hr' : ∀ e ∈ r, e.2 = false := fun e he => h.tailUnwoken e (by simp [hq, he])
-    rw [hq] at hwk
-    simp [filter_unwoken _ hr'] at hwk
-    obtain ⟨hjk, hw0⟩ := hwk
-    subst hjk
-    apply inv_slotWait c hv
-    · simpa [hh, hq] using horder
-    · simpa using h.idx
-    · simpa using h.fifo
-    · simpa using h.bound
-    · simpa using hw0
-    · simpa [hq] using hr'
-    · simpa [hh] using hpl
-    · simpa using h.getter
-  | insPoll j =>
-    simp only [runH, Option.some.injEq] at hs
-    subst hs
-    simp at horder hwk hpl
-    have hh : s.holder = some j ∧ polls rest = [] := by
-      cases hho : s.holder with
-      | none => rw [hho] at hpl; simp at hpl
-      | some x => rw [hho] at hpl; simp at hpl; simp [hpl.1, hpl.2]
-    have hu := h.heldUnwoken (by simp [hh.1])
-    apply inv_slotWait c hv
-    · simpa [hh.1] using horder
-    · simpa using h.idx
-    · simpa using h.fifo
-    · simpa using h.bound
-    · simpa [filter_unwoken _ hu] using hwk
-    · simpa using hu
-    · simpa using hh.2
-    · simpa using h.getter
-  | ack j =>
-    simp only [runH, Option.some.injEq] at hs
-    subst hs
-    exact inv_frame c s _ h rfl rfl rfl rfl rfl rfl rfl (by simp [hr]) (by simp [hr]) (by simp [hr])
-  | worker =>
-    have h0 : Inv c { s with ready := rest } :=
-      inv_frame c s _ h rfl rfl rfl rfl rfl rfl rfl (by simp [hr]) (by simp [hr]) (by simp [hr])
-    generalize ({ s with ready := rest } : FSt α) = s0 at hs h0
-    simp only [runH] at hs
-    cases hw : s0.worker with
-    | absent => simp [hw] at hs
-    | starting => simp [hw] at hs; subst hs; exact inv_getNext c _ h0 (by simp [hw])
-    | getting b => simp [hw] at hs; subst hs; exact inv_getNext c _ h0 (by simp [hw])
-    | awaiting j => simp [hw] at hs; subst hs; exact inv_emitNow c _ j h0 hw
+theorem loopTop_facts (p : Nat) (s : FSt α) (w : Nat) (hW : WInv s) (hlt : w < s.workers.length)
+    (hnf : stL s.workers w ≠ .finished) (hp : ∀ v, v < w → stL s.workers v = .finished) :
+    LFrame s (loopTop s w) ∧ WInv (loopTop s w) ∧ GN s.queue s.outs (loopTop s w) := by
+  unfold loopTop
+  split
+  · exact finishWorker_facts s w hW hlt hnf hp
+  · exact getNext_facts p s w hW hlt hnf hp
+
+theorem eff_of_ready (p : Nat) (s s' : FSt α) (r : List H) (h : Eff p { s with ready := r } s') : Eff p s s' := by
+  cases h with
+  | arrive x h1 h2 h3 h4 h5 => exact Eff.arrive x h1 h2 h3 h4 h5
+  | silent h1 h2 h3 h4 h5 => exact Eff.silent h1 h2 h3 h4 h5
+  | admission j h1 h2 h3 h4 h5 h6 => exact Eff.admission j h1 h2 h3 h4 h5 h6
+  | get h1 h2 h3 h4 => exact Eff.get h1 h2 h3 h4
+  | emit j h1 h2 h3 h4 h5 h6 => exact Eff.emit j h1 h2 h3 h4 h5 h6
+  | release j h1 h2 h3 h4 => exact Eff.release j h1 h2 h3 h4
+
+theorem runWorker_facts (c : Cfg) (hl : c.life = .current) (s s' : FSt α) (w : Nat) (hW : WInv s)
+    (hr : runWorker c s w = some s') : LFrame s s' ∧ WInv s' ∧ Eff c.p s s' := by
+  unfold runWorker at hr
+  cases hg : s.workers[w]? with
+  | none => simp [hg] at hr
+  | some k =>
+    have hlt : w < s.workers.length := (List.getElem?_eq_some_iff.mp hg).1
+    have hst : stL s.workers w = k.st := by simp [stL, hg]
+    simp only [hg] at hr
+    cases hk : k.st with
+    | starting =>
+      rw [hk] at hst
+      have hnf : stL s.workers w ≠ .finished := by rw [hst]; intro h; cases h
+      simp only [hk] at hr
+      by_cases hwait : c.life = .current ∧ w ≠ 0 ∧ stOf s (w - 1) ≠ .finished
+      · rw [if_pos hwait] at hr
+        simp only [Option.some.injEq] at hr
+        subst hr
+        refine ⟨lframe_setSt s w _, ?_, ?_⟩
+        · exact winv_setSt s _ w (.waitPrev false) hW hlt hnf (by intro h; cases h) (by intro h; cases h) rfl
+            (fun u hu => Or.inl (by simpa [setSt] using hu))
+        · refine Eff.silent (by simp [setSt]) (by simp [setSt]) ?_ (by simp [setSt]) (by simp [setSt])
+          rw [aproj_def, aproj_def]
+          apply aprojL_congr _ _ (by simp [setSt])
+          intro v _
+          simp only [setSt, stL_modify_st, hlt, and_true]
+          by_cases e : v = w
+          · subst e; simp [hst, projA]
+          · simp [e]
+      · rw [if_neg hwait] at hr
+        simp only [Option.some.injEq] at hr
+        subst hr
+        have hp : ∀ v, v < w → stL s.workers v = .finished := by
+          by_cases h0 : w = 0
+          · intro v hv; omega
+          · have hfin : stL s.workers (w - 1) = .finished := by
+              have : ¬ (stOf s (w - 1) ≠ .finished) := fun hne => hwait ⟨hl, h0, hne⟩
+              simpa [stOf_def] using this
+            exact preds_of_prev s hW w (by omega) (by omega) hfin
+        obtain ⟨f1, f2, f3⟩ := loopTop_facts c.p s w hW hlt hnf hp
+        refine ⟨f1, f2, Eff.get f1.ins f1.started ?_ f3⟩
+        rw [aproj_def, aprojL_single _ w hlt (others_none s hW w hnf hp), hst]; rfl
+    | waitPrev b =>
+      rw [hk] at hst
+      have hnf : stL s.workers w ≠ .finished := by rw [hst]; intro h; cases h
+      cases b with
+      | false => simp [hk] at hr
+      | true =>
+        simp only [hk, Option.some.injEq] at hr
+        subst hr
+        obtain ⟨hw1, hfin⟩ := hW.woken w hst
+        have hp := preds_of_prev s hW w hw1 (by omega) hfin
+        obtain ⟨f1, f2, f3⟩ := loopTop_facts c.p s w hW hlt hnf hp
+        refine ⟨f1, f2, Eff.get f1.ins f1.started ?_ f3⟩
+        rw [aproj_def, aprojL_single _ w hlt (others_none s hW w hnf hp), hst]; rfl
+    | getting b =>
+      rw [hk] at hst
+      have hnf : stL s.workers w ≠ .finished := by rw [hst]; intro h; cases h
+      simp only [hk, Option.some.injEq] at hr
+      subst hr
+      have hp := hW.chain w hlt (by rw [hst]; rfl)
+      obtain ⟨f1, f2, f3⟩ := getNext_facts c.p s w hW hlt hnf hp
+      refine ⟨f1, f2, Eff.get f1.ins f1.started ?_ f3⟩
+      rw [aproj_def, aprojL_single _ w hlt (others_none s hW w hnf hp), hst]; rfl
+    | awaiting j =>
+      rw [hk] at hst
+      have hnf : stL s.workers w ≠ .finished := by rw [hst]; intro h; cases h
+      simp only [hk, Option.some.injEq] at hr
+      subst hr
+      have hp := hW.chain w hlt (by rw [hst]; rfl)
+      have hoth := others_none s hW w hnf hp
+      refine ⟨by constructor <;> simp [emitNow, setSt], ?_, ?_⟩
+      · exact winv_setSt s _ w (.emitting j true) hW hlt hnf (fun _ => hp) (by intro h; cases h) rfl
+          (fun u hu => Or.inl (by simpa [emitNow, setSt] using hu))
+      · refine Eff.emit j rfl rfl ?_ rfl ?_ (by simp [emitNow, setSt])
+        · rw [aproj_def, aprojL_single _ w hlt hoth, hst]; rfl
+        · rw [aproj_def]; simp only [emitNow, setSt]
+          rw [aprojL_modify _ w _ hlt hoth]; rfl
     | emitting j b =>
-      simp [hw] at hs; subst hs
-      apply inv_getNext c _ _ (by simp [hw])
-      exact inv_frame c _ _ h0 rfl rfl rfl rfl rfl (by simp [hw]) rfl rfl rfl rfl
-  | jobFirst j =>
-    have h0 : Inv c { s with ready := rest } :=
-      inv_frame c s _ h rfl rfl rfl rfl rfl rfl rfl (by simp [hr]) (by simp [hr]) (by simp [hr])
-    simp only [runH] at hs
-    split at hs
-    · simp at hs; subst hs
-      exact inv_frame c _ _ h0 rfl rfl rfl rfl rfl rfl rfl rfl rfl rfl
-    · simp at hs; subst hs; exact inv_finishJob c _ j h0
-    · simp at hs
-  | jobWake j =>
-    have h0 : Inv c { s with ready := rest } :=
-      inv_frame c s _ h rfl rfl rfl rfl rfl rfl rfl (by simp [hr]) (by simp [hr]) (by simp [hr])
-    simp only [runH, Option.some.injEq] at hs
-    subst hs; exact inv_finishJob c _ j h0
-  | gatherCb =>
-    simp only [runH, Option.some.injEq] at hs
-    subst hs
-    exact inv_frame c s _ h rfl rfl rfl rfl rfl rfl rfl (by simp [hr]) (by simp [hr]) (by simp [hr])
+      rw [hk] at hst
+      have hnf : stL s.workers w ≠ .finished := by rw [hst]; intro h; cases h
+      simp only [hk, Option.some.injEq] at hr
+      subst hr
+      have hp := hW.chain w hlt (by rw [hst]; rfl)
+      have hW1 : WInv ({ s with fin := s.fin ++ [j] } : FSt α) := winv_frame s _ hW rfl (fun u hu => hu)
+      obtain ⟨f1, f2, f3⟩ := loopTop_facts c.p ({ s with fin := s.fin ++ [j] } : FSt α) w hW1 hlt hnf hp
+      refine ⟨⟨f1.started, f1.holder, f1.lockq, f1.ins, f1.fresh, f1.wakes, f1.polls, f1.queue⟩, f2,
+        Eff.release j f1.ins f1.started ?_ f3⟩
+      rw [aproj_def, aprojL_single _ w hlt (others_none s hW w hnf hp), hst]; rfl
+    | finished => simp [hk] at hr
 
-theorem inv_step (c : Cfg) (hv : c.variant = .locked) (s s' : FSt α) (a : FAct α) (h : Inv c s)
-    (hs : step c s a = some s') : Inv c s' := by
+/-! ### insert steps, worker creation, the whole step -/
+
+theorem slotWait_view (c : Cfg) (hv : c.variant = .locked) (s : FSt α) (j : Nat) (hW : WInv s) :
+    WInv (slotWait c s j) ∧ (slotWait c s j).ins = s.ins ∧ aproj (slotWait c s j) = aproj s ∧
+    (slotWait c s j).outs = s.outs ∧
+    (((slotWait c s j).queue = s.queue ∧ (slotWait c s j).started = s.started) ∨
+     ((slotWait c s j).queue = s.queue ++ [j] ∧ (slotWait c s j).started = s.started ++ [j] ∧
+        full c.p s.queue = false)) := by
+  unfold slotWait
+  by_cases hf : full c.p s.queue = true
+  · rw [if_pos hf]
+    exact ⟨winv_frame s _ hW rfl (fun u hu => by simpa using hu), rfl, rfl, rfl, Or.inl ⟨rfl, rfl⟩⟩
+  · have hv' := releaseLock_view (insertNow s j)
+    simp only [hv, hf, Bool.false_eq_true, if_false, finishInsert]
+    refine ⟨?_, by simp [hv'.2.1], ?_, by simp [hv'.2.2.2.2.1], Or.inr ⟨by simp [hv'.2.2.1], by simp [hv'.1], by simpa using hf⟩⟩
+    · apply winv_frame (insertNow s j) _ (insertNow_winv s j hW) (by simp [hv'.2.2.2.1])
+      intro u hu
+      simpa [hv'.2.2.2.2.2] using hu
+    · rw [aproj_def]
+      simp only [hv'.2.2.2.1]
+      rw [← aproj_def, insertNow_aproj]
+
+theorem eff_of_slotWait (c : Cfg) (hv : c.variant = .locked) (s0 t : FSt α) (j : Nat) (hW : WInv t)
+    (t1 : t.ins = s0.ins) (t2 : t.queue = s0.queue) (t3 : t.workers = s0.workers) (t4 : t.outs = s0.outs)
+    (t5 : t.started = s0.started) : WInv (slotWait c t j) ∧ Eff c.p s0 (slotWait c t j) := by
+  obtain ⟨h0, h1, h2, h3, h4⟩ := slotWait_view c hv t j hW
+  have ha : aproj t = aproj s0 := by rw [aproj_def, aproj_def, t3]
+  refine ⟨h0, ?_⟩
+  rcases h4 with ⟨h4, h5⟩ | ⟨h4, h5, h6⟩
+  · exact Eff.silent (by rw [h1, t1]) (by rw [h4, t2]) (by rw [h2, ha]) (by rw [h3, t4]) (by rw [h5, t5])
+  · exact Eff.admission j (by rw [h1, t1]) (by rw [h4, t2]) (by rw [h2, ha]) (by rw [h3, t4]) (by rw [h5, t5])
+      (by rw [← t2]; exact h6)
+
+theorem createWorker_facts (p : Nat) (s : FSt α) (hW : WInv s) :
+    LFrame s (createWorker s) ∧ WInv (createWorker s) ∧ aproj (createWorker s) = aproj s ∧
+    (createWorker s).outs = s.outs := by
+  refine ⟨by constructor <;> simp [createWorker], ?_, ?_, rfl⟩
+  · exact winv_append s _ hW rfl (fun u hu => by simpa [createWorker] using hu)
+  · rw [aproj_def, aproj_def]
+    exact aprojL_append s.workers {} rfl
+
+theorem firstBusy_spec (s : FSt α) (w j : Nat) (h : firstBusy s = some (w, j)) :
+    w < s.workers.length ∧ stL s.workers w = .emitting j true := by
+  unfold firstBusy at h
+  obtain ⟨v, hv, hf⟩ := List.exists_of_findSome?_eq_some h
+  simp at hv
+  rw [stOf_def] at hf
+  split at hf
+  · rename_i j' hst
+    simp at hf
+    obtain ⟨e1, e2⟩ := hf
+    subst e1; subst e2
+    exact ⟨hv, hst⟩
+  · simp at hf
+
+theorem step_facts (c : Cfg) (hv : c.variant = .locked) (hl : c.life = .current) (s s' : FSt α) (a : FAct α)
+    (hL : LInv c s) (hW : WInv s) (hs : step c s a = some s') : LInv c s' ∧ WInv s' ∧ Eff c.p s s' := by
   cases a with
   | arrive x =>
     simp only [step, Option.some.injEq] at hs
     subst hs
-    have key : ∀ s1 : FSt α, Inv c s1 →
-        Inv c { s1 with ins := s1.ins ++ [(s1.ins.length, x)], ready := s1.ready ++ [H.insFirst s1.ins.length] } := by
-      intro s1 h1
-      constructor
-      · simp [List.range_succ, ← h1.order]
-      · simp [List.range_succ, h1.idx]
-      · simpa using h1.fifo
-      · simpa using h1.bound
-      · simpa using h1.wk
-      · simpa using h1.tailUnwoken
-      · simpa using h1.heldUnwoken
-      · simpa using h1.pl
-      · simpa using h1.freeWoken
-      · simpa using h1.getter
-    cases hw : s.worker with
-    | absent =>
+    have key : ∀ s1 : FSt α, LInv c s1 → WInv s1 → aproj s1 = aproj s → s1.ins = s.ins → s1.queue = s.queue →
+        s1.outs = s.outs → s1.started = s.started →
+        (LInv c { s1 with ins := s1.ins ++ [(s1.ins.length, x)], ready := s1.ready ++ [H.insFirst s1.ins.length] } ∧
+         WInv { s1 with ins := s1.ins ++ [(s1.ins.length, x)], ready := s1.ready ++ [H.insFirst s1.ins.length] } ∧
+         Eff c.p s { s1 with ins := s1.ins ++ [(s1.ins.length, x)], ready := s1.ready ++ [H.insFirst s1.ins.length] }) := by
+      intro s1 h1 w1 e1 e2 e3 e4 e5
+      refine ⟨?_, winv_frame s1 _ w1 rfl (fun u hu => by simpa using hu), ?_⟩
+      · constructor
+        · simp [List.range_succ, ← h1.order]
+        · simp [List.range_succ, h1.idx]
+        · simpa using h1.bound
+        · simpa using h1.wk
+        · simpa using h1.tailUnwoken
+        · simpa using h1.heldUnwoken
+        · simpa using h1.pl
+        · simpa using h1.freeWoken
+      · exact Eff.arrive x (by simp [e2]) e3 (by rw [← e1]; rfl) e4 e5
+    cases hw : s.workTask with
+    | none =>
+      obtain ⟨f1, f2, f3, f4⟩ := createWorker_facts c.p s hW
       simp only
-      have h1 : Inv c { s with worker := W.starting, ready := s.ready ++ [H.worker] } := by
-        constructor
-        · simpa using h.order
-        · simpa using h.idx
-        · simpa [hw] using h.fifo
-        · simpa using h.bound
-        · simpa using h.wk
-        · simpa using h.tailUnwoken
-        · simpa using h.heldUnwoken
-        · simpa using h.pl
-        · simpa using h.freeWoken
-        · simp
-      exact key _ h1
-    | starting => exact key _ h
-    | getting b => exact key _ h
-    | awaiting j => exact key _ h
-    | emitting j b => exact key _ h
+      exact key _ (linv_frame c s _ hL f1) f2 f3 f1.ins rfl f4 f1.started
+    | some w0 => simp only; exact key s hL hW rfl rfl rfl rfl rfl
   | tick =>
     simp only [step] at hs
     cases hr : s.ready with
     | nil => simp [hr] at hs
-    | cons hd rest => rw [hr] at hs; exact inv_runH c hv s hd rest s' h hr hs
+    | cons hd rest =>
+      rw [hr] at hs
+      simp only at hs
+      have horder := hL.order
+      have hwk := hL.wk
+      have hpl := hL.pl
+      rw [hr] at horder hwk hpl
+      -- removing a handle that is neither an insert step nor an `_on_completion` callback
+      have pop : fresh rest = fresh s.ready → wakes rest = wakes s.ready → polls rest = polls s.ready →
+          waitCbs rest = waitCbs s.ready →
+          LInv c { s with ready := rest } ∧ WInv { s with ready := rest } := by
+        intro e1 e2 e3 e4
+        exact ⟨linv_frame c s _ hL ⟨rfl, rfl, rfl, rfl, e1, e2, e3, Or.inl rfl⟩,
+          winv_frame s _ hW rfl (fun u hu => by rw [← e4]; exact hu)⟩
+      have hW0 : WInv { s with ready := rest } := by
+        refine winv_frame s _ hW rfl ?_
+        intro u hu
+        rw [hr]
+        cases hd <;> simp [hu]
+      cases hd with
+      | insFirst j =>
+        simp only [runH, hv, Option.some.injEq] at hs
+        subst hs
+        simp at horder hwk hpl
+        unfold tryLock
+        by_cases hfree : s.holder = none ∧ s.lockq = []
+        · rw [if_pos hfree]
+          obtain ⟨w1, e1⟩ := eff_of_slotWait c hv s { s with ready := rest } j hW0 rfl rfl rfl rfl rfl
+          refine ⟨?_, w1, e1⟩
+          apply linv_slotWait c hv
+          · simpa [hfree.1, hfree.2] using horder
+          · simpa using hL.idx
+          · simpa using hL.bound
+          · simpa [hfree.2] using hwk
+          · simp [hfree.2]
+          · simpa [hfree.1] using hpl
+        · rw [if_neg hfree]
+          refine ⟨?_, winv_frame _ _ hW0 rfl (fun u hu => hu), eff_silent_of_workers c.p s _ rfl rfl rfl rfl rfl⟩
+          constructor
+          · simpa using horder
+          · simpa using hL.idx
+          · simpa using hL.bound
+          · simpa [List.filter_append] using hwk
+          · intro e he
+            cases hq : s.lockq with
+            | nil => simp [hq] at he
+            | cons a t =>
+              simp [hq] at he
+              rcases he with he | he
+              · exact hL.tailUnwoken e (by simp [hq, he])
+              · simp [he]
+          · intro hh e he
+            simp at he
+            rcases he with he | he
+            · exact hL.heldUnwoken hh e he
+            · simp [he]
+          · simpa using hpl
+          · intro hh _
+            have hne : s.lockq ≠ [] := fun hq => hfree ⟨hh, hq⟩
+            obtain ⟨k, r, hq⟩ := hL.freeWoken hh hne
+            exact ⟨k, r ++ [(j, false)], by simp [hq]⟩
+      | insWake j =>
+        simp only [runH, Option.some.injEq] at hs
+        subst hs
+        simp at horder hwk hpl
+        have hh : s.holder = none := by
+          cases hho : s.holder with
+          | none => rfl
+          | some x =>
+            have := filter_unwoken _ (hL.heldUnwoken (by simp [hho]))
+            rw [this] at hwk; simp at hwk
+        have hne : s.lockq ≠ [] := by
+          intro hq; rw [hq] at hwk; simp at hwk
+        obtain ⟨k, r, hq⟩ := hL.freeWoken hh hne
+        have hr' : ∀ e ∈ r, e.2 = false := fun e he => hL.tailUnwoken e (by simp [hq, he])
+        rw [hq] at hwk
+        simp [filter_unwoken _ hr'] at hwk
+        obtain ⟨hjk, hw0⟩ := hwk
+        subst hjk
+        obtain ⟨w1, e1⟩ := eff_of_slotWait c hv s
+          { s with ready := rest, lockq := s.lockq.eraseP (fun e => e.1 == j) } j
+          (winv_frame _ _ hW0 rfl (fun u hu => hu)) rfl rfl rfl rfl rfl
+        refine ⟨?_, w1, e1⟩
+        apply linv_slotWait c hv
+        · simpa [hh, hq] using horder
+        · simpa using hL.idx
+        · simpa using hL.bound
+        · simpa using hw0
+        · simpa [hq] using hr'
+        · simpa [hh] using hpl
+      | insPoll j =>
+        simp only [runH, Option.some.injEq] at hs
+        subst hs
+        simp at horder hwk hpl
+        have hh : s.holder = some j ∧ polls rest = [] := by
+          cases hho : s.holder with
+          | none => rw [hho] at hpl; simp at hpl
+          | some x => rw [hho] at hpl; simp at hpl; simp [hpl.1, hpl.2]
+        have hu := hL.heldUnwoken (by simp [hh.1])
+        obtain ⟨w1, e1⟩ := eff_of_slotWait c hv s { s with ready := rest } j hW0 rfl rfl rfl rfl rfl
+        refine ⟨?_, w1, e1⟩
+        apply linv_slotWait c hv
+        · simpa [hh.1] using horder
+        · simpa using hL.idx
+        · simpa using hL.bound
+        · simpa [filter_unwoken _ hu] using hwk
+        · simpa using hu
+        · simpa using hh.2
+      | ack j =>
+        simp only [runH, Option.some.injEq] at hs
+        subst hs
+        obtain ⟨l0, _⟩ := pop (by simp [hr]) (by simp [hr]) (by simp [hr]) (by simp [hr])
+        exact ⟨linv_frame c _ _ l0 ⟨rfl, rfl, rfl, rfl, rfl, rfl, rfl, Or.inl rfl⟩,
+          winv_frame _ _ hW0 rfl (fun u hu => hu), eff_silent_of_workers c.p s _ rfl rfl rfl rfl rfl⟩
+      | worker w =>
+        simp only [runH] at hs
+        obtain ⟨l0, _⟩ := pop (by simp [hr]) (by simp [hr]) (by simp [hr]) (by simp [hr])
+        obtain ⟨f1, f2, f3⟩ := runWorker_facts c hl _ s' w hW0 hs
+        exact ⟨linv_frame c _ _ l0 f1, f2, eff_of_ready c.p s s' rest f3⟩
+      | waitCb w =>
+        simp only [runH] at hs
+        split at hs
+        · rename_i hst
+          simp only [Option.some.injEq] at hs
+          subst hs
+          rw [stOf_def] at hst
+          simp only at hst
+          have hlt : w < s.workers.length := stL_lt _ _ (by rw [hst]; intro h; cases h)
+          have hcb := hW.cbs w (by rw [hr]; simp)
+          have l0 : LInv c { s with ready := rest } :=
+            linv_frame c s _ hL ⟨rfl, rfl, rfl, rfl, by simp [hr], by simp [hr], by simp [hr], Or.inl rfl⟩
+          refine ⟨linv_frame c _ _ l0 (by constructor <;> simp [setSt]), ?_, ?_⟩
+          · apply winv_setSt s _ w (.waitPrev true) hW hlt (by rw [hst]; intro h; cases h) (by intro h; cases h)
+              (fun _ => ⟨hcb.1, hcb.2.2⟩) (by simp [setSt])
+            intro u hu
+            left
+            simp [setSt] at hu
+            rw [hr]; simp [hu]
+          · refine Eff.silent (by simp [setSt]) (by simp [setSt]) ?_ (by simp [setSt]) (by simp [setSt])
+            rw [aproj_def, aproj_def]
+            apply aprojL_congr _ _ (by simp [setSt])
+            intro v _
+            simp only [setSt, stL_modify_st, hlt, and_true]
+            by_cases e : v = w
+            · subst e; simp [hst, projA]
+            · simp [e]
+        · simp at hs
+      | jobFirst j =>
+        obtain ⟨l0, _⟩ := pop (by simp [hr]) (by simp [hr]) (by simp [hr]) (by simp [hr])
+        simp only [runH] at hs
+        split at hs
+        · simp at hs; subst hs
+          exact ⟨linv_frame c _ _ l0 ⟨rfl, rfl, rfl, rfl, rfl, rfl, rfl, Or.inl rfl⟩,
+            winv_frame _ _ hW0 rfl (fun u hu => hu), eff_silent_of_workers c.p s _ rfl rfl rfl rfl rfl⟩
+        · simp at hs; subst hs
+          exact ⟨linv_frame c _ _ l0 (by constructor <;> simp [finishJob]),
+            winv_frame _ _ hW0 rfl (fun u hu => by simpa [finishJob] using hu),
+            eff_silent_of_workers c.p s _ rfl rfl rfl rfl rfl⟩
+        · simp at hs
+      | jobWake j =>
+        obtain ⟨l0, _⟩ := pop (by simp [hr]) (by simp [hr]) (by simp [hr]) (by simp [hr])
+        simp only [runH, Option.some.injEq] at hs
+        subst hs
+        exact ⟨linv_frame c _ _ l0 (by constructor <;> simp [finishJob]),
+          winv_frame _ _ hW0 rfl (fun u hu => by simpa [finishJob] using hu),
+          eff_silent_of_workers c.p s _ rfl rfl rfl rfl rfl⟩
+      | gatherCb w =>
+        obtain ⟨l0, _⟩ := pop (by simp [hr]) (by simp [hr]) (by simp [hr]) (by simp [hr])
+        simp only [runH, Option.some.injEq] at hs
+        subst hs
+        exact ⟨linv_frame c _ _ l0 (by constructor <;> simp),
+          winv_frame _ _ hW0 rfl (fun u hu => by simpa using hu),
+          eff_silent_of_workers c.p s _ rfl rfl rfl rfl rfl⟩
   | jobDone j =>
     simp only [step] at hs
     split at hs
     · simp at hs; subst hs
-      exact inv_frame c _ _ h rfl rfl rfl rfl rfl rfl rfl rfl rfl rfl
+      exact ⟨linv_frame c _ _ hL ⟨rfl, rfl, rfl, rfl, rfl, rfl, rfl, Or.inl rfl⟩,
+        winv_frame _ _ hW rfl (fun u hu => hu), eff_silent_of_workers c.p s _ rfl rfl rfl rfl rfl⟩
     · simp at hs; subst hs
-      exact inv_frame c _ _ h rfl rfl rfl rfl rfl rfl rfl (by simp) (by simp) (by simp)
+      exact ⟨linv_frame c _ _ hL (by constructor <;> simp),
+        winv_frame _ _ hW rfl (fun u hu => by simpa using hu), eff_silent_of_workers c.p s _ rfl rfl rfl rfl rfl⟩
     · simp at hs
   | downDone =>
     simp only [step] at hs
-    split at hs
-    · rename_i j hw
-      simp at hs; subst hs
-      constructor
-      · simpa using h.order
-      · simpa using h.idx
-      · simpa [hw] using h.fifo
-      · simpa using h.bound
-      · simpa using h.wk
-      · simpa using h.tailUnwoken
-      · simpa using h.heldUnwoken
-      · simpa using h.pl
-      · simpa using h.freeWoken
-      · simp
-    · simp at hs
+    cases hb : firstBusy s with
+    | none => simp [hb] at hs
+    | some wj =>
+      obtain ⟨w, j⟩ := wj
+      simp [hb] at hs
+      subst hs
+      obtain ⟨hlt, hst⟩ := firstBusy_spec s w j hb
+      have hnf : stL s.workers w ≠ .finished := by rw [hst]; intro h; cases h
+      refine ⟨linv_frame c _ _ hL (by constructor <;> simp [setSt]), ?_, ?_⟩
+      · apply winv_setSt s _ w (.emitting j false) hW hlt hnf (fun _ => hW.chain w hlt (by rw [hst]; rfl))
+          (by intro h; cases h) (by simp [setSt])
+        intro u hu; left; simpa [setSt] using hu
+      · refine Eff.silent (by simp [setSt]) (by simp [setSt]) ?_ (by simp [setSt]) (by simp [setSt])
+        rw [aproj_def, aproj_def]
+        apply aprojL_congr _ _ (by simp [setSt])
+        intro v _
+        simp only [setSt, stL_modify_st, hlt, and_true]
+        by_cases e : v = w
+        · subst e; simp [hst, projA]
+        · simp [e]
+  | start =>
+    simp only [step, startNode, hl, Option.some.injEq] at hs
+    subst hs
+    have hcreate : LInv c (createWorker s) ∧ WInv (createWorker s) ∧ Eff c.p s (createWorker s) := by
+      obtain ⟨f1, f2, f3, f4⟩ := createWorker_facts c.p s hW
+      exact ⟨linv_frame c s _ hL f1, f2, Eff.silent f1.ins rfl f3 f4 f1.started⟩
+    cases hw : s.workTask with
+    | none => simpa [hw] using hcreate
+    | some w0 =>
+      simp only
+      split
+      · exact hcreate
+      · exact ⟨hL, hW, eff_silent_of_workers c.p s s rfl rfl rfl rfl rfl⟩
+  | stop =>
+    simp only [step] at hs
+    cases hw : s.workTask with
+    | none => simp [hw] at hs
+    | some w0 =>
+      simp [hw] at hs
+      subst hs
+      refine ⟨linv_frame c _ _ hL (by constructor <;> simp [setStop]),
+        winv_setStop s _ w0 hW (by simp [setStop]) (fun u hu => by simpa [setStop] using hu), ?_⟩
+      refine Eff.silent (by simp [setStop]) (by simp [setStop]) ?_ (by simp [setStop]) (by simp [setStop])
+      rw [aproj_def, aproj_def]
+      apply aprojL_congr _ _ (by simp [setStop])
+      intro v _
+      simp [setStop]
 
-theorem inv_run (c : Cfg) (hv : c.variant = .locked) (acts : List (FAct α)) (s s' : FSt α) (h : Inv c s)
-    (hr : run c s acts = some s') : Inv c s' := by
+/-! ### FIFO through the consumer side, and the bundle -/
+
+/-- started = emitted ++ taken out of the queue and not emitted yet ++ work queue -/
+def Fifo (s : FSt α) : Prop := s.started = s.outs ++ apre s ++ s.queue
+
+theorem fifo_gn (s s' : FSt α) (h : s.started = s.outs ++ s.queue) (h2 : s'.started = s.started)
+    (g : GN s.queue s.outs s') : Fifo s' := by
+  unfold Fifo
+  rcases g with ⟨g1, g2, g3⟩ | ⟨j, rest, g1, g2, g3 | g3⟩
+  · simp [apre, g1, g2, g3, h2, h]
+  · simp [apre, g2, g3.1, g3.2, h2, h, g1]
+  · simp [apre, g2, g3.1, g3.2, h2, h, g1]
+
+theorem fifo_step (p : Nat) (s s' : FSt α) (h : Fifo s) (e : Eff p s s') : Fifo s' := by
+  unfold Fifo at h
+  cases e with
+  | arrive x h1 h2 h3 h4 h5 => unfold Fifo; simp only [apre, h2, h3, h4, h5]; exact h
+  | silent h1 h2 h3 h4 h5 => unfold Fifo; simp only [apre, h2, h3, h4, h5]; exact h
+  | admission j h1 h2 h3 h4 h5 h6 =>
+    unfold Fifo; simp only [apre, h2, h3, h4, h5]
+    simp only [apre] at h; rw [h]; simp
+  | get h1 h2 h3 h4 => exact fifo_gn s s' (by simpa [apre, h3] using h) h2 h4
+  | emit j h1 h2 h3 h4 h5 h6 =>
+    unfold Fifo; simp only [apre, h2, h4, h5, h6]
+    simp only [apre, h3] at h; rw [h]; simp
+  | release j h1 h2 h3 h4 => exact fifo_gn s s' (by simpa [apre, h3] using h) h2 h4
+
+structure Inv (c : Cfg) (s : FSt α) : Prop where
+  l : LInv c s
+  w : WInv s
+  fifo : Fifo s
+
+theorem inv_init (c : Cfg) : Inv c (init α) :=
+  ⟨linv_init c, winv_init, by simp [Fifo, init, apre, aproj]⟩
+
+theorem inv_step (c : Cfg) (hv : c.variant = .locked) (hl : c.life = .current) (s s' : FSt α) (a : FAct α)
+    (h : Inv c s) (hs : step c s a = some s') : Inv c s' := by
+  obtain ⟨f1, f2, f3⟩ := step_facts c hv hl s s' a h.l h.w hs
+  exact ⟨f1, f2, fifo_step c.p s s' h.fifo f3⟩
+
+theorem inv_run (c : Cfg) (hv : c.variant = .locked) (hl : c.life = .current) (acts : List (FAct α)) (s s' : FSt α)
+    (h : Inv c s) (hr : run c s acts = some s') : Inv c s' := by
   induction acts generalizing s with
   | nil => simp [run] at hr; subst hr; exact h
   | cons a rest ih =>
     simp only [run] at hr
     cases hs : step c s a with
     | none => simp [hs] at hr
-    | some s1 => rw [hs] at hr; exact ih s1 (inv_step c hv s s1 a h hs) hr
+    | some s1 => rw [hs] at hr; exact ih s1 (inv_step c hv hl s s1 a h hs) hr
 
 theorem run_append (c : Cfg) (a b : List (FAct α)) (s : FSt α) :
     run c s (a ++ b) = (run c s a).bind (fun s' => run c s' b) := by
@@ -505,128 +1117,21 @@ theorem prefix_range (l m : List Nat) (n : Nat) (h : l ++ m = List.range n) : l 
   rw [h3] at h2
   exact h2
 
-/-! ### what one step does to `started` and the work queue (no invariant needed) -/
+theorem inv_order' (c : Cfg) (s : FSt α) (h : LInv c s) : s.started ++ waitingIds s = List.range s.ins.length := by
+  have := h.order
+  simpa [waitingIds, List.append_assoc] using this
 
-/-- `s'` starts no job: `started` unchanged, the work queue unchanged or its head taken by the worker -/
-def Quiet (s s' : FSt α) : Prop :=
-  s'.started = s.started ∧ s'.ins = s.ins ∧ (s'.queue = s.queue ∨ ∃ j, s.queue = j :: s'.queue)
-
-/-- `s'` starts exactly job `j`, which enters a work queue that was not full -/
-def Admits (p : Nat) (s s' : FSt α) (j : Nat) : Prop :=
-  s'.started = s.started ++ [j] ∧ s'.ins = s.ins ∧ s'.queue = s.queue ++ [j] ∧ full p s.queue = false
-
-theorem slotWait_effect (c : Cfg) (hv : c.variant = .locked) (s : FSt α) (j : Nat) :
-    Quiet s (slotWait c s j) ∨ Admits c.p s (slotWait c s j) j := by
-  unfold slotWait
-  by_cases hf : full c.p s.queue = true
-  · left; simp [hf, Quiet]
-  · right
-    simp only [hf, hv, Bool.false_eq_true, if_false, finishInsert]
-    have hq : ∀ t : FSt α, (releaseLock t).started = t.started ∧ (releaseLock t).ins = t.ins ∧
-        (releaseLock t).queue = t.queue := by
-      intro t; unfold releaseLock; split <;> simp
-    refine ⟨?_, ?_, ?_, by simpa using hf⟩
-    · simp [(hq _).1]
-    · simp [(hq _).2.1]
-    · simp [(hq _).2.2]
-
-theorem getNext_effect (s : FSt α) : Quiet s (getNext s) := by
-  unfold getNext
-  cases hq : s.queue with
-  | nil => simp [Quiet, hq]
-  | cons j rest =>
-    simp only
-    split <;> simp [Quiet, emitNow, hq]
-
-theorem finishJob_effect (s : FSt α) (j : Nat) : Quiet s (finishJob s j) := by
-  unfold finishJob; split <;> simp [Quiet]
-
-theorem quiet_of_ready (s t : FSt α) (rest : List H) (h : Quiet { s with ready := rest } t) : Quiet s t := h
-
-theorem step_effect (c : Cfg) (hv : c.variant = .locked) (s s' : FSt α) (a : FAct α) (hs : step c s a = some s') :
-    (∃ x, a = .arrive x ∧ s'.started = s.started ∧ s'.queue = s.queue ∧ s'.ins = s.ins ++ [(s.ins.length, x)]) ∨
-    Quiet s s' ∨ ∃ j, Admits c.p s s' j := by
-  cases a with
-  | arrive x =>
-    left
-    simp only [step, Option.some.injEq] at hs
-    subst hs
-    refine ⟨x, rfl, ?_⟩
-    cases s.worker <;> simp
-  | jobDone j =>
-    right; left
-    simp only [step] at hs
-    split at hs <;> simp at hs <;> subst hs <;> simp [Quiet]
-  | downDone =>
-    right; left
-    simp only [step] at hs
-    split at hs <;> simp at hs
-    subst hs; simp [Quiet]
-  | tick =>
-    right
-    simp only [step] at hs
-    cases hr : s.ready with
-    | nil => simp [hr] at hs
-    | cons hd rest =>
-      rw [hr] at hs
-      simp only at hs
-      generalize hs0 : ({ s with ready := rest } : FSt α) = s0 at hs
-      have e1 : s0.started = s.started := by subst hs0; rfl
-      have e2 : s0.queue = s.queue := by subst hs0; rfl
-      have e3 : s0.ins = s.ins := by subst hs0; rfl
-      have lift : (Quiet s0 s' ∨ ∃ j, Admits c.p s0 s' j) → (Quiet s s' ∨ ∃ j, Admits c.p s s' j) := by
-        simp only [Quiet, Admits, e1, e2, e3]; exact id
-      apply lift
-      cases hd with
-      | insFirst j =>
-        simp only [runH, hv, Option.some.injEq] at hs
-        subst hs
-        unfold tryLock
-        split
-        · rcases slotWait_effect c hv s0 j with h | h
-          · exact Or.inl h
-          · exact Or.inr ⟨j, h⟩
-        · left; simp [Quiet]
-      | insWake j =>
-        simp only [runH, Option.some.injEq] at hs
-        subst hs
-        rcases slotWait_effect c hv { s0 with lockq := s0.lockq.eraseP (fun e => e.1 == j) } j with h | h
-        · exact Or.inl h
-        · exact Or.inr ⟨j, h⟩
-      | insPoll j =>
-        simp only [runH, Option.some.injEq] at hs
-        subst hs
-        rcases slotWait_effect c hv s0 j with h | h
-        · exact Or.inl h
-        · exact Or.inr ⟨j, h⟩
-      | ack j =>
-        simp only [runH, Option.some.injEq] at hs
-        subst hs; left; simp [Quiet]
-      | worker =>
-        left
-        simp only [runH] at hs
-        cases hw : s0.worker with
-        | absent => simp [hw] at hs
-        | starting => simp [hw] at hs; subst hs; exact getNext_effect s0
-        | getting b => simp [hw] at hs; subst hs; exact getNext_effect s0
-        | awaiting j => simp [hw] at hs; subst hs; simp [Quiet, emitNow]
-        | emitting j b =>
-          simp [hw] at hs; subst hs
-          exact getNext_effect { s0 with fin := s0.fin ++ [j] }
-      | jobFirst j =>
-        left
-        simp only [runH] at hs
-        split at hs
-        · simp at hs; subst hs; simp [Quiet]
-        · simp at hs; subst hs; exact finishJob_effect s0 j
-        · simp at hs
-      | jobWake j =>
-        left
-        simp only [runH, Option.some.injEq] at hs
-        subst hs; exact finishJob_effect s0 j
-      | gatherCb =>
-        left
-        simp only [runH, Option.some.injEq] at hs
-        subst hs; simp [Quiet]
+/-- at most one worker is past its predecessor wait and not finished -/
+theorem active_unique (s : FSt α) (h : WInv s) (w v : Nat) (hw : (stL s.workers w).isActive = true)
+    (hv : (stL s.workers v).isActive = true) : w = v := by
+  have hwl : w < s.workers.length := stL_lt _ _ (by intro e; rw [e] at hw; simp [W.isActive] at hw)
+  have hvl : v < s.workers.length := stL_lt _ _ (by intro e; rw [e] at hv; simp [W.isActive] at hv)
+  have np : ∀ x : W, x.isActive = true → x.isPre = false := by intro x hx; cases x <;> simp [W.isActive, W.isPre] at hx ⊢
+  rcases Nat.lt_trichotomy w v with hlt | heq | hgt
+  · have := h.chain v hvl (np _ hv) w hlt
+    rw [this] at hw; simp [W.isActive] at hw
+  · exact heq
+  · have := h.chain w hwl (np _ hw) v hgt
+    rw [this] at hv; simp [W.isActive] at hv
 
 end StreamzVerif.MapAsyncFine
